@@ -265,7 +265,12 @@ Definition read_value (vk : vkind) (v : bytes) : line_class :=
       | [] => WF false (if dflt then [] else [RList k []])
       | _ =>
         let es := split_on 59 v in
-        if forallb canonical_elem es then WF true [RList k es] else Malformed
+        if forallb canonical_elem es then WF true [RList k es]
+        else
+          (* alternative spelling: blanks around an item and empty items (a doubled or trailing ';') are
+             not part of the list - "a; b;;" lists a and b; a list that names nothing is no list *)
+          let es' := filter (fun e => match e with [] => false | _ => true end) (map trim_space es) in
+          WF true (match es' with [] => if dflt then [] else [RList k []] | _ => [RList k es'] end)
       end
     | VJson k => match v with [] => Malformed | _ => WF false [RStr k v] end
     | VCaps => WF strict [RCaps (read_caps v)]
